@@ -916,12 +916,16 @@ def ord_pack(ctx: Ctx, rule: str) -> None:
                     if isinstance(src[2], ast.For):
                         # a loop builds a positional sequence when it appends / extends / yields; one that only files values under the name it
                         # goes through (`d[name] = ...`) and binds locals builds something keyed by name
-                        grows = any((isinstance(x, ast.Attribute) and x.attr in ('append', 'extend', 'insert')) or isinstance(x, (ast.Yield, ast.YieldFrom, ast.AugAssign)) for b_ in src[2].body for x in ast.walk(b_))
+                        # (an augmented assignment grows a sequence only when it adds a list: `d |= {name: v}`, a counter, a text do not)
+                        grows = any((isinstance(x, ast.Attribute) and x.attr in ('append', 'extend', 'insert')) or isinstance(x, (ast.Yield, ast.YieldFrom))
+                                    or (isinstance(x, ast.AugAssign) and isinstance(x.op, ast.Add) and isinstance(x.value, (ast.List, ast.Tuple, ast.ListComp)))
+                                    for b_ in src[2].body for x in ast.walk(b_))
+                        unread_aug = any(isinstance(x, ast.AugAssign) and not (isinstance(x.op, ast.Add) and isinstance(x.value, (ast.List, ast.Tuple, ast.ListComp))) for b_ in src[2].body for x in ast.walk(b_))
                         stores = [t_ for b_ in src[2].body for x in ast.walk(b_) if isinstance(x, (ast.Assign, ast.AnnAssign)) for t_ in (x.targets if isinstance(x, ast.Assign) else [x.target])]
                         keyed = all(isinstance(t_, ast.Name) or (isinstance(t_, ast.Subscript) and isinstance(t_.slice, ast.Name) and t_.slice.id in src[0]) for t_ in stores)
                         calls_out = any(isinstance(x, ast.Call) and not (isinstance(x.func, ast.Attribute) and x.func.attr in ('append', 'extend', 'insert')) and any(isinstance(y, ast.Name) and y.id == v for a_ in list(x.args) + [k_.value for k_ in x.keywords] for y in ast.walk(a_))
                                         for b_ in src[2].body for x in ast.walk(b_))
-                        use = 'positional' if grows else ('free' if (keyed and stores and not calls_out) else 'unknown')
+                        use = 'positional' if grows else ('free' if (keyed and stores and not calls_out and not unread_aug) else 'unknown')
                         if grows:
                             u2 = _sequence_use(f.node, parents, src[2])
                             use = u2 if u2 != 'unknown' else 'positional' if not [x for b_ in src[2].body for x in ast.walk(b_) if isinstance(x, ast.Attribute) and x.attr == 'append' and isinstance(x.value, ast.Name)] else 'unknown'
